@@ -468,6 +468,7 @@ type tr struct {
 	entryReach string
 	entryHeapsInl map[string]string
 	inlineN   int
+	epoch     int // allocation clock: objects known at a point have born <= epoch there, later allocations born > it
 
 	defers []*deferRec
 
@@ -531,6 +532,14 @@ func (t *tr) fresh(prefix, sort string) string {
 	n := fmt.Sprintf("%s_%s%d", prefix, t.pfx, t.nfresh)
 	fmt.Fprintf(&t.decls, "(declare-const %s %s)\n", n, sort)
 	return n
+}
+
+// regPtr records a reference that denotes an object known at this point (allocated no later than now). Everything that
+// is allocated afterwards (newRef, fresh results of callees) gets a larger allocation stamp, hence is a different
+// object: one fact per reference instead of one per pair.
+func (t *tr) regPtr(ref string) {
+	t.ptrs = append(t.ptrs, ref)
+	t.assume("", fmt.Sprintf("(<= (born %s) %d)", ref, t.epoch))
 }
 
 func (t *tr) abstractf(f string, a ...interface{}) {
@@ -1405,7 +1414,7 @@ func (t *tr) run() (err error) {
 			fmt.Fprintf(&t.decls, "(declare-const %s %s)\n", n, smtSort(ls))
 			ns = append(ns, n)
 			if r := refOf(ls, n); r != "" {
-				t.ptrs = append(t.ptrs, r)
+				t.regPtr(r)
 				t.assume("", fmt.Sprintf("(existed %s)", r))
 			}
 		}
@@ -1424,7 +1433,7 @@ func (t *tr) run() (err error) {
 		fmt.Fprintf(&t.decls, "(declare-const %s Loc)\n", n)
 		t.val[fv] = []string{n}
 		t.assume("", fmt.Sprintf("(and (> (lref %s) 0) (existed (lref %s)))", n, n)) // a captured variable's cell always exists
-		t.ptrs = append(t.ptrs, "(lref "+n+")")
+		t.regPtr("(lref " + n + ")")
 	}
 	if t.parent != nil {
 		cur = t.parent.oldHeaps
@@ -1826,7 +1835,7 @@ func (t *tr) cutLoop(b *ssa.BasicBlock, k int, entry map[string]string) map[stri
 				t.typeFacts("true", ns[0], phi.Type())
 				// objects allocated in the loop body are distinct from whatever the loop variables refer to at the header
 				if r := refOf(lv[0], ns[0]); r != "" {
-					t.ptrs = append(t.ptrs, r)
+					t.regPtr(r)
 				}
 			} else {
 				t.compositeTypeFacts("true", ns, phi.Type())
